@@ -80,7 +80,7 @@ class FuncRun(ExprMixin, InstrMixin, CallMixin):
         self.hyps.append(t)
 
     def add_fact_once(self, t):
-        if t in self.facted:
+        if self.mute or t in self.facted:
             return
         self.facted.add(t)
         if t[0] == 'b':
@@ -293,12 +293,12 @@ class FuncRun(ExprMixin, InstrMixin, CallMixin):
     def fresh_ref(self, prefix='ref'):
         r = T.fresh(prefix)
         if not self.mute:
-            self.hyps.append(T.lt(T.ZERO, r))
-            for o in self.alloc_refs[-40:]:
-                self.hyps.append(T.not_(T.eq(r, o)))
+            # allocation order gives pairwise distinctness with one fact per allocation
+            prev = self.alloc_refs[-1] if self.alloc_refs else T.ZERO
+            self.hyps.append(T.lt(prev, r))
             for o in self.param_refs:
                 self.hyps.append(T.not_(T.eq(r, o)))
-        self.alloc_refs.append(r)
+            self.alloc_refs.append(r)
         return r
 
     # ------------------------------------------------------------ merging
@@ -312,9 +312,10 @@ class FuncRun(ExprMixin, InstrMixin, CallMixin):
             return incoming[0][1].copy(), edge_pcs
         states = [s for _, s in incoming]
         pc = T.or_(*[s.pc for s in states])
-        if pc[0] != 'b' and not self.mute:
+        if pc[0] != 'b':
             pcv = T.fresh('pc', T.BOOL)
-            self.hyps.append(T.eq(pcv, pc))
+            if not self.mute:
+                self.hyps.append(T.eq(pcv, pc))
             pc = pcv
         out = State(pc)
         keys = []
